@@ -1,8 +1,7 @@
 // SPDX-License-Identifier: MIT OR Apache-2.0
 
 use std::collections::HashMap;
-use std::sync::Arc;
-use std::sync::atomic::AtomicUsize;
+use std::sync::{Arc, Mutex};
 
 use futures_util::{Stream, StreamExt};
 use p2panda_core::Topic;
@@ -159,14 +158,22 @@ impl Gossip {
     pub async fn stream(&self, topic: Topic) -> Result<GossipHandle, GossipError> {
         let max_message_size = self.config.max_message_size;
 
+        // Hold the write lock for the whole call: concurrent `stream` calls for a yet unknown
+        // topic must not both subscribe (each with its own reference counter).
+        let mut senders = self.senders.write().await;
+
         // Check if there's already a handle for this topic and clone it.
         //
         // If this handle exists but the topic counter is zero we know that all previous handles
         // have been dropped and we didn't clean up yet. In this case we'll ignore the existing
         // entry in "senders" and continue to create a new gossip session, overwriting the "dead"
         // entries.
-        if let Some((to_gossip_tx, from_gossip_tx, guard)) = self.senders.read().await.get(&topic)
-            && guard.has_subscriptions()
+        //
+        // Checking the counter and taking a new reference is one atomic step, otherwise the last
+        // handle could be dropped (and the overlay left) in between and we would hand out a dead
+        // handle.
+        if let Some((to_gossip_tx, from_gossip_tx, guard)) = senders.get(&topic)
+            && let Some(guard) = guard.try_clone()
         {
             #[cfg(p2panda_p2panda_verif)]
             p2panda_core::verif::point("gossip_stream:after_liveness_check");
@@ -176,7 +183,7 @@ impl Gossip {
                 max_message_size,
                 to_gossip_tx.clone(),
                 from_gossip_tx.clone(),
-                guard.clone(),
+                guard,
             ));
         }
 
@@ -216,7 +223,6 @@ impl Gossip {
         //
         // `from_gossip_tx` is used to create a broadcast receiver when the user calls
         // `subscribe()` on `GossipHandle`.
-        let mut senders = self.senders.write().await;
         senders.insert(
             topic,
             (
@@ -412,7 +418,10 @@ impl Stream for GossipSubscription {
 #[derive(Debug)]
 struct TopicDropGuard {
     topic: Topic,
-    counter: Arc<AtomicUsize>,
+    /// Number of references. The lock is held while sending the "unsubscribe" message, so whoever
+    /// observes a zero counter knows that the message is already in the actor's inbox (and a new
+    /// "subscribe" for the same topic is handled after it).
+    counter: Arc<Mutex<usize>>,
     actor_ref: ActorRef<ToGossipManager>,
     ignore_drop: bool,
 }
@@ -434,20 +443,34 @@ impl TopicDropGuard {
 
         Self {
             topic,
-            counter: Arc::new(AtomicUsize::new(INITIAL_COUNTER)),
+            counter: Arc::new(Mutex::new(INITIAL_COUNTER)),
             actor_ref,
             ignore_drop: false,
         }
     }
 
     /// Returns current number of references to this topic.
+    #[cfg(test)]
     fn counter(&self) -> usize {
-        self.counter.load(std::sync::atomic::Ordering::SeqCst)
+        *self.counter.lock().expect("counter lock")
     }
 
-    /// Returns true if there's still one or more references for this topic used.
-    fn has_subscriptions(&self) -> bool {
-        self.counter() >= INITIAL_COUNTER
+    /// Takes a new reference if there's still one or more references for this topic used.
+    ///
+    /// Returns `None` if all references have been dropped already (the overlay was left).
+    fn try_clone(&self) -> Option<Self> {
+        let mut counter = self.counter.lock().expect("counter lock");
+        if *counter < INITIAL_COUNTER {
+            return None;
+        }
+        *counter += 1;
+
+        Some(Self {
+            topic: self.topic,
+            counter: self.counter.clone(),
+            actor_ref: self.actor_ref.clone(),
+            ignore_drop: false,
+        })
     }
 
     /// Clone guard, but don't increment reference counter.
@@ -466,13 +489,15 @@ impl TopicDropGuard {
 
 impl Clone for TopicDropGuard {
     fn clone(&self) -> Self {
-        let value = self
-            .counter
-            .fetch_add(1, std::sync::atomic::Ordering::SeqCst);
+        let value = {
+            let mut counter = self.counter.lock().expect("counter lock");
+            *counter += 1;
+            *counter
+        };
 
         trace!(
             topic = self.topic.fmt_short(),
-            counter = value + 1,
+            counter = value,
             actor_id = %self.actor_ref.get_id(),
             "clone topic drop guard +1"
         );
@@ -495,13 +520,15 @@ impl Drop for TopicDropGuard {
 
         // Check if we can unsubscribe from topic if all handles and subscriptions have been
         // dropped for it.
-        let previous_counter = self
-            .counter
-            .fetch_sub(1, std::sync::atomic::Ordering::SeqCst);
+        //
+        // The lock is kept until the "unsubscribe" message was sent, see comment in struct.
+        let mut counter = self.counter.lock().expect("counter lock");
+        let previous_counter = *counter;
+        *counter = previous_counter.saturating_sub(1);
 
         trace!(
             topic = self.topic.fmt_short(),
-            counter = previous_counter - 1,
+            counter = *counter,
             actor_id = %self.actor_ref.get_id(),
             "drop topic drop guard -1"
         );
